@@ -42,6 +42,15 @@ CLAIMED = {
         '(own dict, own incarnation lists, objects owned by it, the message and its arguments); the log parser opens on first sight with the role from the get_registry direction, forwards under the message own tag, and closes every known connection exactly once.',
    note='Assumed: separation (A-SEP: the record lists of controller / manager / connections are distinct objects, true by construction in the constructors), disseminator delivery, sink wiring of main.py. Non-interference between two connections is carried by the per-connection modifies clauses (frame obligations); the lift to arbitrary interleavings and a global disjointness invariant across all connections are argued, not machine-checked.',
    technique='contract-based deductive verification: data-structure invariants, ownership-based frame conditions, ghost separation parameter; z3'),
+ 'C12': dict(level='proof', design='6.C12',
+   text='core.matcher.join (real body: _as_list, the two list extensions, the list comprehension that filters out `*` alternatives, the refill) is proved against a structural contract: '
+        'a `*` on either side means replace; otherwise the result is the new list, its exclusions are exactly new exclusions followed by old exclusions, every specific (non-`*`) alternative of either side is kept, '
+        'nothing else is an alternative once a specific one exists, and with only `*` alternatives the single alternative is a fresh `*`; only lists of `new` are written (frame). '
+        'MatcherList.matches (real loops with break, loop invariants) is proved equal to "some alternative matches and no exclusion matches"; AlwaysMatcher.matches equals its flag. '
+        'Together: a message is selected iff it matches some accumulated alternative and no accumulated exclusion. Controller.parse_and_join / filter / breakpoint commands call join through this contract.',
+   note='Decomposition, not one semantic postcondition: joins are specified on list contents, selection on MatcherList.matches, so no footprint reasoning over the recursive matcher graph is needed. '
+        'Trusted: matcher.parse returns a new graph whose two lists are distinct new lists (precondition of join; C18.1/C05), Matcher.matches interface contract for the element matchers (messages typed as wl.Message), list comprehension = order-preserving filter (engine rule), pyvc + z3.',
+   technique='contract-based deductive verification: structural postcondition over list views + defining contract of the selection loop; z3'),
  'C19': dict(level='proof', design='6.C19',
    text='_split_command (real nested loops, inner ones unrolled over the literal marker table): the split is at the first marker word (alias, or single-dash cluster ending in g/r), everything before is ours verbatim, everything after is forwarded verbatim and in order, no marker means no mode; '
         '_strip_dashes removes exactly the leading dashes; _select_mode returns a mode iff exactly one of run/gdb/load/pipe is selected (gdb-plugin aside) and None on conflict or none. '
